@@ -1005,3 +1005,26 @@ func SpecRdbBuffered(r *memoryRdb) int64 { panic("abstract spec function") }
 //@   requires nonnil: mc != nil && writer != nil && writer.rdb != nil
 //@   modifies heap
 //@   ensures only_a_completely_received_snapshot_stays_on_offer: mc.rdb != nil && mc.rdb == old(writer.rdb) ==> SpecRdbBuffered(old(writer.rdb)) == old(writer.rdb.size)
+
+// ---- the memory cache never opens a hole behind the snapshot it offers (C05, C16) --------------
+// Collection takes the oldest data first: the snapshot is older than every log segment, so a log
+// segment goes only when no replayable snapshot is on offer any more.
+//@ func appendBlob.isClosed(self) (r)
+//@   trusted frame (reads the blob under its own lock)
+//@   modifies nothing
+//@ func appendBlob.len(self) (n)
+//@   trusted frame (reads the blob under its own lock)
+//@   modifies nothing
+//@ func MemoryAofWriter.currentSegment(self) (seg)
+//@   trusted frame (atomic load)
+//@   modifies nothing
+
+//@ func MemoryChannel.gcLocked
+//@   arith int
+//@   properties C05 C16
+//@   replay syncer_memoryGcHole
+//@   requires nonnil: mc != nil
+//@   modifies heap
+//@   ensures no_log_segment_goes_while_a_snapshot_is_on_offer: mc.rdb != nil && mc.rdb.replayable ==> len(mc.aofSegs) == old(len(mc.aofSegs))
+//@   loop 1:
+//@     invariant oldest_first: mc != nil && (mc.rdb != nil && mc.rdb.replayable ==> len(mc.aofSegs) == old(len(mc.aofSegs)))
